@@ -739,3 +739,18 @@ _extend("C05", [("""Bytes -> tokens (the lexer on the written text) is exercised
          ("C05_text_parse", "LexWrite", "text_parse", "", "check"),
          ("C05_text_roundtrip", "LexWrite", "C05_text_roundtrip", "", "check"),
          ("C05_text_roundtrip_slice", "LexWrite", "C05_text_roundtrip_slice", "", "check")])
+
+# ---- DisasmProofs.v: the disassembly tiles the code; the trace lists the instructions executed ----
+APPEND["C19"] = ("""(* the disassembly lists each instruction of the compiled program exactly once at its offset, the trace lists exactly
+   the instructions executed, and neither can reach a panic site of the disassembler (Proofs/DisasmProofs.v) *)
+From Coq Require Import Sorted.
+From BCL Require Import Model.Verify Proofs.VerifyProofs Proofs.Limits Proofs.DisasmProofs.""",
+[("C19_disasm_total", "DisasmProofs", "disasm_total", ""),
+ ("C19_disasm_tiles", "DisasmProofs", "disasm_tiles", "one line per instruction boundary, in order, starting at 0, consecutive offsets differing by the decoded length, the last instruction ending at the end of the code"),
+ ("C19_disasm_source", "DisasmProofs", "disasm_source", "for every accepted source shorter than 2^56 bytes"),
+ ("C19_interpret_disasm_lines", "DisasmProofs", "interpret_disasm_lines", ""),
+ ("C19_never_disasm_panic", "DisasmProofs", "interpret_never_disasm_panic", ""),
+ ("C19_run_pc_in_offsets", "DisasmProofs", "run_pc_in_offsets", "every pc at which the VM fetches an opcode is one of the listed offsets"),
+ ("C19_trace_lists_instructions", "DisasmProofs", "trace_lists_instructions", "the trace is, in order, one (stack, instruction) pair per step; the instruction line is the disassembly line of that pc"),
+ ("C19_trace_source", "DisasmProofs", "trace_source", ""),
+])
